@@ -189,63 +189,16 @@ Section Laid1.
 
   Lemma local_piece1 flv : forall es (pl : list (list N * loc)) cA c0 B lastc st,
     Forall Pe1 es -> forallb frag_exp es = true -> forallb tb_shp_exp es = true ->
-    chain W c0 (flat_map m_exp es) B ->
+    chain W c0 (flat_map m_exp es) B -> (length es <= length pl)%nat ->
     (forall p, In p pl -> idok W (snd p) /\ hi W (snd p) <= c0) ->
     InReg W lastc cA c0 -> cA <= c0 ->
     vss st <> [] -> G W (vss st) c0 B ->
     cl_local_loop (map (fun e => (e, tr_exp flv e, cl1_exp nm flv e)) es) pl st = true /\
     EvoS W cA B (vss st) (vss (local_loop (map (fun e => (e, tr_exp flv e)) es) pl lastc st)).
   Proof.
-    induction es as [|e es' IH]; intros pl cA c0 B lastc st He Hf Hs Hx Hp Hlast HcA Hne Hg.
-    - cbn [map local_loop cl_local_loop]. split; [reflexivity|].
-      pose proof (chain_le W _ _ _ Hx) as HcB.
-      destruct (vss st) as [|vs r] eqn:E; [contradiction|].
-      rewrite (vss_add_rest lastc _ pl st vs r E).
-      exists (rev (map (fun p : list N * loc => mkV (fst p) (snd p) lastc
-                                                     (match lastc with RNone => true | _ => false end)) pl)), vs.
-      repeat split.
-      + apply Forall2_refl. apply EvoVar_refl.
-      + apply Forall_rev. apply Forall_forall. intros v Hv. apply in_map_iff in Hv. destruct Hv as [p [<- Hin]].
-        destruct (Hp p Hin) as [Hid Hh]. apply (Born_of_InReg W); [exact Hid|zlia|].
-        exact (InReg_widen W _ _ _ cA B Hlast (Z.le_refl cA) HcB).
-      + apply Evo_refl.
-    - inversion He as [|? ? He1 He2]; subst. cbn [forallb] in Hf, Hs.
-      apply andb_true_iff in Hf. destruct Hf as [Hf1 Hf2].
-      apply andb_true_iff in Hs. destruct Hs as [Hsh1 Hsh2].
-      cbn [flat_map] in Hx. destruct (chain_app W _ _ _ _ Hx) as [c1 [X1 X2]].
-      pose proof (chain_le W _ _ _ X1) as L1. pose proof (chain_le W _ _ _ X2) as L2.
-      cbn [map local_loop cl_local_loop].
-      destruct (proj1 He1 Hf1 Hsh1 flv c0 c1 X1 st Hne (G_sub W _ _ _ _ _ Hg (Z.le_refl c0) L2)) as [P1 P2].
-      remember (tr_exp flv e st) as st1 eqn:Est1 in *. clear Est1.
-      assert (Hne1 : vss st1 <> []) by exact (Evo_nonempty W _ _ _ _ P2 Hne).
-      destruct pl as [|[n l] pl'].
-      + split; [rewrite P1; reflexivity|].
-        destruct (vss st) as [|vs r] eqn:E; [contradiction|]. apply Evo_EvoS.
-        exact (Evo_widen W _ _ _ _ _ _ P2 HcA L2).
-      + destruct (Hp (n, l) (or_introl eq_refl)) as [Hid Hh]. cbn [snd] in Hid, Hh.
-        set (v := mkV n l (ref_of_exp e) (refer_empty n e)).
-        assert (Hb : Born W cA c1 v).
-        { apply (Born_of_InReg W); [exact Hid|zlia|].
-          exact (InReg_widen W _ _ _ cA c1 (region_of_exp W e c0 c1 X1) HcA (Z.le_refl c1)). }
-        assert (Hs1 : EvoS W cA c1 (vss st) (vss (add_var v st1))).
-        { pose proof (Evo_widen W _ _ _ _ _ _ P2 HcA (Z.le_refl c1)) as P2'.
-          destruct (vss st) as [|vs r] eqn:E; [contradiction|].
-          destruct (vss st1) as [|vs1 r1] eqn:E1; [exfalso; apply Hne1; reflexivity|].
-          try rewrite E in P2'. try rewrite E1 in P2'.
-          inversion P2' as [|? ? ? ? Hv1 Hr1]; subst.
-          rewrite (vss_add v st1 vs1 r1 E1). exists [v], vs1. repeat split; auto. }
-        assert (Hg' : G W (vss (add_var v st1)) c1 B).
-        { apply (G_evoS_fwd W _ _ cA c1 B (G_sub W _ _ _ _ _ Hg L1 (Z.le_refl B)) Hs1). }
-        assert (Hlast' : InReg W (match e with ECall _ _ _ _ => ref_of_exp e | _ => RNone end) cA c1).
-        { destruct e; cbn [InReg]; auto.
-          exact (InReg_widen W _ _ _ cA c1 (region_of_exp W _ c0 c1 X1) HcA (Z.le_refl c1)). }
-        destruct (IH pl' cA c1 B (match e with ECall _ _ _ _ => ref_of_exp e | _ => RNone end) (add_var v st1)
-                     He2 Hf2 Hsh2 X2) as [R1 R2]; auto.
-        * intros p Hin. destruct (Hp p (or_intror Hin)) as [A1 A2]. split; [exact A1|zlia].
-        * zlia.
-        * exact (EvoS_nonempty W _ _ _ _ Hs1).
-        * split; [rewrite P1; exact R1|].
-          eapply EvoS_trans; [exact (EvoS_widen W _ _ _ _ _ _ Hs1 (Z.le_refl cA) L2)|exact R2].
+    intros es pl cA c0 B lastc st He Hf Hs Hx Hlen Hp Hlast HcA Hne Hg.
+    exact (local_piece_gen W (fun e => tr_exp flv e) (fun e => cl1_exp nm flv e) es pl cA c0 B lastc st
+                           (exps_piece1 flv es c0 B He Hf Hs Hx) Hx Hlen Hp Hlast HcA Hne Hg).
   Qed.
 
   Lemma stats_piece1 flv slv : forall ss a b,
